@@ -39,7 +39,7 @@ TEXT_COLS = ("label", "hint", "guidance_hint", "constraint_message", "required_m
 @st.composite
 def _cases(draw):
     prof = dict(gen.PROFILES["text"], p_multilang=0.5, p_custom_bind=0.4, p_custom_instance=0.4, p_custom_body=0.4, p_appearance=0.0,
-                p_default=0.0, p_entities=0, p_external=0, p_choice_label_ref=0.15, p_or_other=0.05, p_table_list=0.05)
+                p_default=0.0, p_entities=0, p_external=0, p_choice_label_ref=0.15, p_or_other=0.05, p_table_list=0.05, p_search=0.1)
     g = gen.G(draw, prof)
     form = gen.build_form(draw, prof, g=g)
     for n, _ in model.walk(form["nodes"]):
@@ -100,7 +100,7 @@ def benign(form):
         for k in list(n["c"]):
             base = k.split("::")[0]
             if base in TEXT_COLS or (base in ("bind", "instance", "body") and "${" not in n["c"][k]) or base in ("appearance",):
-                if base == "appearance" and "table-list" in n["c"][k]:
+                if base == "appearance" and ("table-list" in n["c"][k] or "search(" in n["c"][k]):     # (these appearances are structure)
                     continue
                 n["c"][k] = blank(n["c"][k])
             elif base == "default" and expect.is_dynamic_default(n["c"][k], n["c"].get("type", "").split()[0] if n["k"] == "q" else None) is False:
